@@ -87,9 +87,9 @@ a_real a_mf_tri(a_real x, a_real a, a_real b, a_real c)
             x = 0;
         }
     }
-    else
+    else if (x > b)
     {
-        if (x < c) /* b <= x < c */
+        if (x < c) /* b < x < c */
         {
             x = (c - x) / (c - b);
         }
@@ -97,6 +97,10 @@ a_real a_mf_tri(a_real x, a_real a, a_real b, a_real c)
         {
             x = 0;
         }
+    }
+    else /* x == b */
+    {
+        x = 1;
     }
     return x;
 }
